@@ -231,7 +231,7 @@ func compHashClasses(seed byte, set func(sc *refmodel.Comp, b []byte)) []compFie
 func compTextClasses(set func(sc *refmodel.Comp, s string)) []compFieldCls {
 	var out []compFieldCls
 	out = append(out, compFieldCls{"absent", nil, wOK, nil})
-	for _, v := range []string{"BL", "", "é\"\n"} {
+	for _, v := range append([]string{"BL", "", "é\"\n"}, oddCompTexts...) {
 		v := v
 		out = append(out, compFieldCls{fmt.Sprintf("tstr%q", v), func() *mcbor.Node { return mcbor.T(v) }, wOK, func(sc *refmodel.Comp) { set(sc, v) }})
 	}
